@@ -195,6 +195,9 @@ class ilu_solve< backend::builtin<value_type, col_type, ptr_type> > {
         }
 
     private:
+#ifdef AMGCL_VERIF
+        friend struct amgcl::verif::access;
+#endif
         static int num_threads() {
 #ifdef _OPENMP
             return omp_get_max_threads();
@@ -398,6 +401,9 @@ class ilu_solve< backend::builtin<value_type, col_type, ptr_type> > {
                             ptrdiff_t i   = ord[tid][r];
                             ptrdiff_t beg = ptr[tid][r];
                             ptrdiff_t end = ptr[tid][r+1];
+#ifdef AMGCL_VERIF
+                            AMGCL_VERIF_EVENT("ilu.row", this, tid, &t - &tasks[tid][0], i, lower ? 0 : 2);
+#endif
 
                             rhs_type X = math::zero<rhs_type>();
                             for(ptrdiff_t j = beg; j < end; ++j)
@@ -407,6 +413,9 @@ class ilu_solve< backend::builtin<value_type, col_type, ptr_type> > {
                                 x[i] -= X;
                             else
                                 x[i] = D[tid][r] * (x[i] - X);
+#ifdef AMGCL_VERIF
+                            AMGCL_VERIF_EVENT("ilu.row", this, tid, &t - &tasks[tid][0], i, lower ? 1 : 3);
+#endif
                         }
 
                         // each task corresponds to a level, so we need
